@@ -73,3 +73,483 @@ Proof.
   assert (E : ((1536 + 512) mod 512 = 0)%Z) by reflexivity.
   rewrite E in H. lia.
 Qed.
+
+(* ---- Go map ranges ------------------------------------------------------------ *)
+Lemma alookup_app {V} k (a b : list (string * V)) :
+  alookup k (a ++ b) = match alookup k a with Some v => Some v | None => alookup k b end.
+Proof.
+  induction a as [|[k' v'] a IH]; simpl; [reflexivity|].
+  destruct (String.eqb k k'); [reflexivity|exact IH].
+Qed.
+
+Lemma akeys_app {V} (a b : list (string * V)) : akeys (a ++ b) = akeys a ++ akeys b.
+Proof. unfold akeys. apply map_app. Qed.
+
+Lemma range_map_self_aux {V} : forall (suf pre : list (string * V)),
+  NoDup (akeys (pre ++ suf)) -> range_map (pre ++ suf) (akeys suf) = suf.
+Proof.
+  induction suf as [|[k v] suf IH]; intros pre ND; [reflexivity|].
+  simpl. assert (E : alookup k (pre ++ (k, v) :: suf) = Some v).
+  { apply in_alookup_nodup; [exact ND|]. apply in_or_app. right. left. reflexivity. }
+  unfold range_map in *. simpl. rewrite E. simpl. f_equal.
+  specialize (IH (pre ++ [(k, v)])). rewrite <- app_assoc in IH. simpl in IH. apply IH. exact ND.
+Qed.
+Lemma range_map_self {V} (m : list (string * V)) : NoDup (akeys m) -> range_map m (akeys m) = m.
+Proof. intro ND. apply (range_map_self_aux m []). exact ND. Qed.
+
+Lemma range_map_perm {V} (m : list (string * V)) ord :
+  NoDup (akeys m) -> Permutation ord (akeys m) -> Permutation (range_map m ord) m.
+Proof.
+  intros ND P. rewrite <- (range_map_self m ND) at 2.
+  unfold range_map. apply Permutation_flat_map. exact P.
+Qed.
+
+Lemma range_map_keys_nodup {V} (m : list (string * V)) ord :
+  NoDup (akeys m) -> Permutation ord (akeys m) -> NoDup (akeys (range_map m ord)).
+Proof.
+  intros ND P. eapply Permutation_NoDup; [|exact ND].
+  apply Permutation_sym. unfold akeys. apply Permutation_map. apply range_map_perm; assumption.
+Qed.
+
+(* ---- environment ---------------------------------------------------------------- *)
+Lemma filter_perm {A} (f : A -> bool) (l l' : list A) :
+  Permutation l l' -> Permutation (filter f l) (filter f l').
+Proof.
+  induction 1; simpl.
+  - constructor.
+  - destruct (f x); [constructor|]; assumption.
+  - destruct (f x), (f y); try reflexivity. apply perm_swap.
+  - etransitivity; eassumption.
+Qed.
+
+Lemma fold_add_default env : forall L acc,
+  NoDup (akeys L) -> (forall k, In k (akeys acc) -> ~ In k (akeys L)) ->
+  fold_left add_default L (env ++ acc) = env ++ acc ++ filter (unconfigured env) L.
+Proof.
+  induction L as [|[k v] L IH]; intros acc ND Dis; simpl.
+  - rewrite app_nil_r. reflexivity.
+  - inversion ND as [|? ? Nin ND']; subst.
+    unfold add_default at 2. simpl fst. rewrite alookup_app. unfold unconfigured at 1. simpl fst.
+    destruct (alookup k env) eqn:E.
+    + apply IH; [exact ND'|]. intros k' Hk' Hin. apply (Dis k' Hk'). right. exact Hin.
+    + assert (Eacc : alookup k acc = None).
+      { apply alookup_none. intro H. apply (Dis k H). left. reflexivity. }
+      rewrite Eacc. rewrite <- app_assoc. rewrite (IH (acc ++ [(k, v)]) ND').
+      * rewrite <- app_assoc. reflexivity.
+      * intros k' Hk'. rewrite akeys_app in Hk'. apply in_app_or in Hk'. destruct Hk' as [Hk'|Hk'].
+        -- intro Hin. apply (Dis k' Hk'). right. exact Hin.
+        -- simpl in Hk'. destruct Hk' as [<-|[]]. exact Nin.
+Qed.
+
+Lemma with_defaults_eq defaults dord env :
+  NoDup (akeys defaults) -> Permutation dord (akeys defaults) ->
+  with_defaults defaults dord env = env ++ filter (unconfigured env) (range_map defaults dord).
+Proof.
+  intros ND P. unfold with_defaults.
+  rewrite <- (app_nil_r env) at 1. rewrite fold_add_default.
+  - reflexivity.
+  - apply range_map_keys_nodup; assumption.
+  - intros k [].
+Qed.
+
+Lemma nodup_app_intro {A} (a b : list A) :
+  NoDup a -> NoDup b -> (forall x, In x a -> ~ In x b) -> NoDup (a ++ b).
+Proof.
+  induction a as [|x a IH]; simpl; intros Na Nb Dis; [exact Nb|].
+  inversion Na as [|? ? Nin Na']; subst. constructor.
+  - intro H. apply in_app_or in H. destruct H as [H|H]; [contradiction|].
+    apply (Dis x); [left; reflexivity|exact H].
+  - apply IH; [exact Na'|exact Nb|]. intros y Hy. apply Dis. right. exact Hy.
+Qed.
+
+Lemma nodup_map_filter {A B} (g : A -> B) (f : A -> bool) (l : list A) :
+  NoDup (List.map g l) -> NoDup (List.map g (filter f l)).
+Proof.
+  induction l as [|x l IH]; simpl; intro ND; [constructor|].
+  inversion ND as [|? ? Nin ND']; subst.
+  destruct (f x); simpl; [|apply IH; exact ND'].
+  constructor; [|apply IH; exact ND'].
+  intro H. apply Nin. apply in_map_iff in H. destruct H as [y [E Hy]].
+  apply filter_In in Hy. apply in_map_iff. exists y. tauto.
+Qed.
+
+Lemma effective_keys_nodup defaults env :
+  NoDup (akeys env) -> NoDup (akeys defaults) -> NoDup (akeys (effective_env defaults env)).
+Proof.
+  intros NE ND. unfold effective_env. rewrite akeys_app.
+  apply nodup_app_intro; [exact NE|apply nodup_map_filter; exact ND|].
+  intros k Hk Hf. unfold akeys in Hf. apply in_map_iff in Hf. destruct Hf as [[k' v] [E Hy]].
+  simpl in E. subst k'. apply filter_In in Hy. destruct Hy as [_ Hu].
+  unfold unconfigured in Hu. simpl in Hu.
+  destruct (alookup k env) eqn:El; [discriminate|]. apply alookup_none in El. contradiction.
+Qed.
+
+Lemma env_entry_spec kv : env_entry kv = spec_env_entry kv.
+Proof. reflexivity. Qed.
+
+Lemma default_env_nodup : NoDup (akeys default_env).
+Proof. vm_compute. repeat constructor; simpl; intuition discriminate. Qed.
+
+Lemma sid_inj (l : list string) : forall x y, In x l -> In y l -> sid x = sid y -> x = y.
+Proof. intros x y _ _ H. exact H. Qed.
+
+Lemma render_env_ok env dord ord :
+  NoDup (akeys env) ->
+  Permutation dord (akeys default_env) ->
+  Permutation ord (akeys (with_defaults default_env dord env)) ->
+  EnvOk default_env env (render_env default_env dord env ord).
+Proof.
+  intros NE Pd Po. unfold render_env, EnvOk.
+  split; [apply (isort_sorted (fun s => s))|].
+  rewrite <- (isort_perm (fun s => s)).
+  apply Permutation_map.
+  assert (Ew := with_defaults_eq default_env dord env default_env_nodup Pd).
+  assert (Pw : Permutation (with_defaults default_env dord env) (effective_env default_env env)).
+  { rewrite Ew. unfold effective_env. apply Permutation_app_head. apply filter_perm.
+    apply range_map_perm; [apply default_env_nodup|exact Pd]. }
+  assert (Nw : NoDup (akeys (with_defaults default_env dord env))).
+  { eapply Permutation_NoDup; [apply Permutation_sym; unfold akeys; apply Permutation_map; exact Pw|].
+    apply effective_keys_nodup; [exact NE|apply default_env_nodup]. }
+  etransitivity; [apply range_map_perm; assumption|exact Pw].
+Qed.
+
+(* two outputs meeting the specification are equal: the rendered environment
+   does not depend on any iteration order *)
+Lemma env_ok_unique defaults env out out' :
+  EnvOk defaults env out -> EnvOk defaults env out' -> out = out'.
+Proof.
+  intros [S P] [S' P'].
+  apply (sorted_perm_unique sid); try assumption.
+  - apply sid_inj.
+  - etransitivity; [exact P|apply Permutation_sym; exact P'].
+Qed.
+
+Lemma render_env_full env dord ord :
+  NoDup (akeys env) ->
+  Permutation dord (akeys default_env) ->
+  Permutation ord (akeys (with_defaults default_env dord env)) ->
+  EnvOk default_env env (render_env default_env dord env ord) /\
+  (forall dord' ord', Permutation dord' (akeys default_env) ->
+     Permutation ord' (akeys (with_defaults default_env dord' env)) ->
+     render_env default_env dord' env ord' = render_env default_env dord env ord) /\
+  env_entry_format = "%s=%s".
+Proof.
+  intros NE Pd Po. split; [apply render_env_ok; assumption|]. split; [|reflexivity].
+  intros dord' ord' Pd' Po'. eapply env_ok_unique; apply render_env_ok; assumption.
+Qed.
+
+Lemma env_ok_b_iff defaults env out : env_ok_b defaults env out = true <-> EnvOk defaults env out.
+Proof.
+  unfold env_ok_b, EnvOk. rewrite andb_true_iff, sortedb_iff.
+  rewrite (list_eqb_spec String.eqb String.eqb_eq). split; intros [S H]; (split; [exact S|]).
+  - rewrite (isort_perm sid out), H. apply Permutation_sym, isort_perm.
+  - apply (isort_unique_of_perm sid); [apply sid_inj|exact H].
+Qed.
+Lemma env_tags_iff defaults env out : env_tags defaults env out = [] <-> EnvOk defaults env out.
+Proof.
+  rewrite <- env_ok_b_iff. unfold env_tags. destruct (env_ok_b defaults env out).
+  - tauto.
+  - split; [|discriminate]. destruct (negb _); [discriminate|]. destruct (negb _); discriminate.
+Qed.
+
+(* ---- index ---------------------------------------------------------------------- *)
+Lemma sorted_map_key {A B} (f : A -> B) (ka : A -> string) (kb : B -> string) (l : list A) :
+  (forall x, kb (f x) = ka x) -> StronglySorted (kle ka) l -> StronglySorted (kle kb) (List.map f l).
+Proof.
+  intros E. induction 1 as [|x l S IH F]; simpl; constructor; [exact IH|].
+  apply Forall_map. eapply Forall_impl; [|exact F]. intros y Hy. unfold kle in *. rewrite !E. exact Hy.
+Qed.
+
+Lemma fst_inj_of_nodup {V} (l : list (string * V)) :
+  NoDup (akeys l) -> forall x y, In x l -> In y l -> fst x = fst y -> x = y.
+Proof.
+  intros ND [k v] [k' v'] Hx Hy E. simpl in E. subst k'.
+  apply (in_alookup_nodup _ _ _ ND) in Hx. apply (in_alookup_nodup _ _ _ ND) in Hy. congruence.
+Qed.
+
+Lemma generate_index_ok {D} (imgs : list (string * D)) ord :
+  NoDup (akeys imgs) -> Permutation ord (akeys imgs) ->
+  IndexOk to_oci_platform imgs (generate_index imgs ord) /\
+  (forall ord', Permutation ord' (akeys imgs) -> generate_index imgs ord' = generate_index imgs ord) /\
+  List.length (generate_index imgs ord) = List.length imgs /\
+  oci_platform_os = expected_os.
+Proof.
+  intros ND P. assert (Pr := range_map_perm imgs ord ND P).
+  split; [|split; [|split]].
+  - unfold IndexOk, generate_index. split; [|split].
+    + eapply sorted_map_key; [|apply (isort_sorted fst)]. reflexivity.
+    + rewrite map_map. simpl.
+      rewrite (map_ext _ (fun x => x)); [|intros [k d]; reflexivity]. rewrite map_id.
+      rewrite <- (isort_perm fst). exact Pr.
+    + apply Forall_map. apply Forall_forall. intros [k d] _. simpl.
+      split; [destruct (to_oci_platform k); reflexivity|reflexivity].
+  - intros ord' P'. unfold generate_index. f_equal.
+    apply (isort_unique_of_perm fst).
+    + apply fst_inj_of_nodup. apply range_map_keys_nodup; assumption.
+    + etransitivity; [apply range_map_perm; assumption|apply Permutation_sym; exact Pr].
+  - unfold generate_index. rewrite map_length.
+    rewrite <- (Permutation_length (isort_perm fst _)). apply Permutation_length. exact Pr.
+  - reflexivity.
+Qed.
+
+(* ---- platform table: finite, decided over the whole generated tables --------- *)
+Definition pair_eqb (a b : string * string) : bool := String.eqb (fst a) (fst b) && String.eqb (snd a) (snd b).
+Lemma pair_eqb_eq a b : pair_eqb a b = true <-> a = b.
+Proof.
+  destruct a, b. unfold pair_eqb. simpl. rewrite andb_true_iff, !String.eqb_eq. split; [intros []; congruence|].
+  intro H. inversion H. auto.
+Qed.
+
+(* every string the code or the specification knows as an architecture name *)
+Definition known_arch_names : list string :=
+  all_archs ++ List.map fst parse_arch_table ++ List.map snd parse_arch_table ++
+  List.map fst to_apk_table ++ List.map snd to_apk_table ++ List.map fst oci_platform_table ++
+  List.map fst apk_names ++ List.map snd apk_names.
+
+Definition platform_row_ok (s : string) : bool :=
+  pair_eqb (to_oci_platform (parse_architecture s)) (expected_platform s) &&
+  pair_eqb (to_oci_platform s) (expected_platform s) &&
+  String.eqb (parse_architecture s) (spec_canonical s) &&
+  mem_s (spec_canonical s) all_archs &&
+  String.eqb (parse_architecture (to_apk s)) (spec_canonical s) &&
+  mem_s (to_apk s) (List.map fst apk_names).
+
+Lemma platform_table_ok : forall s, In s known_arch_names ->
+  to_oci_platform (parse_architecture s) = expected_platform s /\
+  to_oci_platform s = expected_platform s /\
+  parse_architecture s = spec_canonical s /\
+  In (spec_canonical s) all_archs /\
+  parse_architecture (to_apk s) = spec_canonical s /\
+  In (to_apk s) (List.map fst apk_names).
+Proof.
+  assert (H : forallb platform_row_ok known_arch_names = true) by (vm_compute; reflexivity).
+  rewrite forallb_forall in H. intros s Hs. specialize (H s Hs).
+  unfold platform_row_ok in H. rewrite !andb_true_iff in H.
+  destruct H as [[[[[H1 H2] H3] H4] H5] H6].
+  apply pair_eqb_eq in H1, H2. apply String.eqb_eq in H3, H5.
+  unfold mem_s in H4, H6. apply existsb_exists in H4, H6.
+  destruct H4 as [x [Hx Ex]], H6 as [y [Hy Ey]]. apply String.eqb_eq in Ex, Ey. subst x y. tauto.
+Qed.
+
+Lemma platform_table_covers :
+  (forall a, In a all_archs -> In a known_arch_names /\ spec_canonical a = a /\
+      exists apk, In (apk, a) apk_names) /\
+  (forall apk oci, In (apk, oci) apk_names -> In apk known_arch_names /\ In oci all_archs) /\
+  oci_platform_os = expected_os.
+Proof.
+  split; [|split; [|reflexivity]].
+  - assert (H : forallb (fun a => mem_s a known_arch_names && String.eqb (spec_canonical a) a &&
+                                  existsb (fun p => String.eqb (snd p) a) apk_names) all_archs = true)
+      by (vm_compute; reflexivity).
+    rewrite forallb_forall in H. intros a Ha. specialize (H a Ha).
+    rewrite !andb_true_iff in H. destruct H as [[H1 H2] H3].
+    unfold mem_s in H1. apply existsb_exists in H1. destruct H1 as [x [Hx Ex]]. apply String.eqb_eq in Ex. subst x.
+    apply String.eqb_eq in H2. apply existsb_exists in H3. destruct H3 as [[apk o] [Hp Ep]].
+    simpl in Ep. apply String.eqb_eq in Ep. subst o. split; [exact Hx|]. split; [exact H2|]. exists apk. exact Hp.
+  - assert (H : forallb (fun p => mem_s (fst p) known_arch_names && mem_s (snd p) all_archs) apk_names = true)
+      by (vm_compute; reflexivity).
+    rewrite forallb_forall in H. intros apk oci Hin. specialize (H _ Hin). cbn [fst snd] in H.
+    rewrite andb_true_iff in H. destruct H as [H1 H2]. unfold mem_s in *.
+    apply existsb_exists in H1, H2. destruct H1 as [x [Hx Ex]], H2 as [y [Hy Ey]].
+    apply String.eqb_eq in Ex, Ey. subst. tauto.
+Qed.
+
+(* ---- config mapping ----------------------------------------------------------- *)
+Lemma alookup_aset {V} k k' (v : V) m :
+  alookup k (aset k' v m) = if String.eqb k k' then Some v else alookup k m.
+Proof.
+  induction m as [|[k2 v2] m IH]; simpl.
+  - destruct (String.eqb k k'); reflexivity.
+  - destruct (String.eqb_spec k' k2) as [->|N]; simpl.
+    + destruct (String.eqb k k2); reflexivity.
+    + destruct (String.eqb_spec k k2) as [->|N2].
+      * destruct (String.eqb_spec k2 k'); [congruence|reflexivity].
+      * exact IH.
+Qed.
+
+Lemma labels_lookup rfc ic created k :
+  alookup k (vcs_annotations rfc image_annotation_stores (ic_vcs_url ic) created (ic_annotations ic)) =
+  expected_label rfc ic created k.
+Proof.
+  unfold vcs_annotations, expected_label.
+  change (key_of_store "url" image_annotation_stores) with source_key.
+  change (key_of_store "hash" image_annotation_stores) with revision_key.
+  change (key_of_store "created.Format(time.RFC3339)" image_annotation_stores) with created_key.
+  change vcs_separator with "@"%char.
+  rewrite alookup_aset. destruct (String.eqb k created_key); [reflexivity|].
+  destruct (nonempty (ic_vcs_url ic)); [|reflexivity].
+  destruct (cut_at "@" (ic_vcs_url ic)) as [[url hash]|]; [|reflexivity].
+  rewrite !alookup_aset. reflexivity.
+Qed.
+
+Lemma index_labels_lookup rfc ic created k :
+  alookup k (index_annotations rfc (ic_vcs_url ic) created (ic_annotations ic)) =
+  expected_label rfc ic created k.
+Proof.
+  unfold index_annotations, vcs_annotations, expected_label.
+  change (key_of_store "url" index_annotation_stores) with source_key.
+  change (key_of_store "hash" index_annotation_stores) with revision_key.
+  change (key_of_store "created.Format(time.RFC3339)" index_annotation_stores) with created_key.
+  change vcs_separator with "@"%char.
+  rewrite alookup_aset. destruct (String.eqb k created_key); [reflexivity|].
+  destruct (nonempty (ic_vcs_url ic)); [|reflexivity].
+  destruct (cut_at "@" (ic_vcs_url ic)) as [[url hash]|]; [|reflexivity].
+  rewrite !alookup_aset. reflexivity.
+Qed.
+
+Definition shlex_failed (shlex : string -> option (list string)) (ic : image_config) : Prop :=
+  (nonempty (ic_shell_fragment ic) = false /\ nonempty (ic_command ic) = true /\ shlex (ic_command ic) = None) \/
+  (nonempty (ic_cmd ic) = true /\ shlex (ic_cmd ic) = None).
+
+Lemma split_or_cases shlex s d :
+  (exists l, split_or shlex s d = Ok l /\ WordsOk shlex s d l) \/
+  (split_or shlex s d = Err /\ nonempty s = true /\ shlex s = None).
+Proof.
+  unfold split_or, WordsOk. destruct (nonempty s).
+  - destruct (shlex s) as [l|]; [left; exists l; auto|right; auto].
+  - left. exists d. auto.
+Qed.
+
+Lemma build_config_mirrors shlex rfc base ic created arch dord eord :
+  NoDup (akeys (ic_env ic)) ->
+  Permutation dord (akeys default_env) ->
+  Permutation eord (akeys (with_defaults default_env dord (ic_env ic))) ->
+  match build_config shlex rfc base ic created arch dord eord with
+  | Ok cfg => ConfigMirrors shlex rfc (to_oci_platform arch) base ic created cfg
+  | Err => shlex_failed shlex ic
+  | _ => False
+  end.
+Proof.
+  intros NE Pd Pe. unfold build_config.
+  assert (Hep : (exists ep,
+             (if nonempty (ic_shell_fragment ic)
+              then Ok (shell_entrypoint_prefix ++ [ic_shell_fragment ic])
+              else split_or shlex (ic_command ic) (oc_entrypoint base)) = Ok ep /\
+             (if nonempty (ic_shell_fragment ic)
+              then ep = ["/bin/sh"; "-c"; ic_shell_fragment ic]
+              else WordsOk shlex (ic_command ic) (oc_entrypoint base) ep)) \/
+           ((if nonempty (ic_shell_fragment ic)
+              then Ok (shell_entrypoint_prefix ++ [ic_shell_fragment ic])
+              else split_or shlex (ic_command ic) (oc_entrypoint base)) = Err /\
+             nonempty (ic_shell_fragment ic) = false /\ nonempty (ic_command ic) = true /\ shlex (ic_command ic) = None)).
+  { destruct (nonempty (ic_shell_fragment ic)).
+    - left. eexists. split; reflexivity.
+    - destruct (split_or_cases shlex (ic_command ic) (oc_entrypoint base)) as [[l [E W]]|[E [N S]]].
+      + left. exists l. auto.
+      + right. auto. }
+  destruct Hep as [[ep [Eep Wep]]|[Eep F]].
+  2:{ rewrite Eep. simpl. left. exact F. }
+  rewrite Eep. simpl.
+  destruct (split_or_cases shlex (ic_cmd ic) (oc_cmd base)) as [[l [E W]]|[E [N S]]].
+  2:{ rewrite E. simpl. right. auto. }
+  rewrite E. simpl.
+  constructor; simpl; try reflexivity.
+  - exact Wep.
+  - exact W.
+  - apply render_env_ok; assumption.
+  - intro k. apply labels_lookup.
+  - destruct (to_oci_platform arch); reflexivity.
+Qed.
+
+(* the validator decides the specification *)
+Lemma tag_if_app_nil b t rest : tag_if (negb b) t ++ rest = [] <-> (b = true /\ rest = []).
+Proof. destruct b; simpl; split; try tauto; try discriminate. intros [H _]. discriminate. Qed.
+
+Lemma words_ok_b_iff shlex s d out : words_ok_b shlex s d out = true <-> WordsOk shlex s d out.
+Proof.
+  unfold words_ok_b, WordsOk. destruct (nonempty s).
+  - destruct (shlex s) as [l|]; simpl; [|split; discriminate].
+    rewrite (list_eqb_spec String.eqb String.eqb_eq). split; congruence.
+  - apply (list_eqb_spec String.eqb String.eqb_eq).
+Qed.
+
+Lemma incl_b_iff a b : incl_b a b = true <-> (forall x, In x a -> In x b).
+Proof.
+  unfold incl_b. rewrite forallb_forall. split; intros H x Hx; specialize (H x Hx).
+  - unfold mem_s in H. apply existsb_exists in H. destruct H as [y [Hy E]]. apply String.eqb_eq in E. subst. exact Hy.
+  - unfold mem_s. apply existsb_exists. exists x. split; [exact H|apply String.eqb_refl].
+Qed.
+
+Lemma option_str_eqb_iff (a b : option string) : option_eqb String.eqb a b = true <-> a = b.
+Proof.
+  destruct a, b; simpl; try (split; congruence).
+  rewrite String.eqb_eq. split; congruence.
+Qed.
+
+Lemma labels_check_iff rfc ic created cfg :
+  forallb (fun k => option_eqb String.eqb (alookup k (oc_labels cfg)) (expected_label rfc ic created k))
+          (label_keys ic cfg) = true <->
+  (forall k, alookup k (oc_labels cfg) = expected_label rfc ic created k).
+Proof.
+  rewrite forallb_forall. split.
+  - intros H k. destruct (in_dec string_dec k (label_keys ic cfg)) as [I|N].
+    + apply option_str_eqb_iff. apply H. exact I.
+    + unfold label_keys in N.
+      assert (N1 : k <> created_key) by (intro; subst; apply N; simpl; auto).
+      assert (N2 : k <> revision_key) by (intro; subst; apply N; simpl; auto).
+      assert (N3 : k <> source_key) by (intro; subst; apply N; simpl; auto).
+      assert (N4 : ~ In k (akeys (ic_annotations ic))).
+      { intro I. apply N. simpl. right. right. right. apply in_or_app. left. exact I. }
+      assert (N5 : ~ In k (akeys (oc_labels cfg))).
+      { intro I. apply N. simpl. right. right. right. apply in_or_app. right. exact I. }
+      apply alookup_none in N4, N5. rewrite N5. unfold expected_label.
+      apply String.eqb_neq in N1, N2, N3. rewrite N1.
+      destruct (if nonempty (ic_vcs_url ic) then cut_at "@" (ic_vcs_url ic) else None) as [[u h]|];
+        [rewrite N2, N3|]; symmetry; exact N4.
+  - intros H k _. apply option_str_eqb_iff. apply H.
+Qed.
+
+Lemma config_tags_iff shlex rfc plat base ic created cfg :
+  config_tags shlex rfc plat base ic created cfg = [] <->
+  ConfigMirrors shlex rfc plat base ic created cfg.
+Proof.
+  unfold config_tags.
+  rewrite !tag_if_app_nil.
+  assert (Happ : forall (a b : list string), a ++ b = [] <-> a = [] /\ b = []).
+  { intros a b. split; [apply app_eq_nil|intros [-> ->]; reflexivity]. }
+  rewrite Happ, !tag_if_app_nil, env_tags_iff.
+  assert (Hlast : forall b t, tag_if (negb b) t = [] <-> b = true).
+  { intros b t. destruct b; simpl; split; congruence. }
+  rewrite Hlast.
+  rewrite !andb_true_iff, !String.eqb_eq, Z.eqb_eq, !incl_b_iff, labels_check_iff, words_ok_b_iff.
+  split.
+  - intros [He [Hc [Hw [Hu [Hs [[Hv1 Hv2] [Henv [Hl [Hcr [[Ha Hv] Hos]]]]]]]]]].
+    constructor; try assumption.
+    + destruct (nonempty (ic_shell_fragment ic)).
+      * apply (list_eqb_spec String.eqb String.eqb_eq). exact He.
+      * apply words_ok_b_iff. exact He.
+    + intro v. split; [apply Hv1|apply Hv2].
+    + destruct plat; simpl in *; congruence.
+  - intros [He Hc Hw Hu Hs Hv Henv Hl Hcr Hp Hos].
+    refine (conj _ (conj Hc (conj Hw (conj Hu (conj Hs (conj (conj _ _) (conj Henv (conj Hl (conj Hcr (conj (conj _ _) Hos)))))))))).
+    + destruct (nonempty (ic_shell_fragment ic)).
+      * apply (list_eqb_spec String.eqb String.eqb_eq). exact He.
+      * apply words_ok_b_iff. exact He.
+    + intros x. apply Hv.
+    + intros x. apply Hv.
+    + rewrite <- Hp. reflexivity.
+    + rewrite <- Hp. reflexivity.
+Qed.
+
+(* ---- bundle completeness -------------------------------------------------------- *)
+Lemma bundle_complete_partial ntags : forall archs,
+  ntags <> 0 -> NoDup (List.map bundle_key archs) -> BundleComplete (bundle_included ntags archs).
+Proof.
+  intros archs Hn. induction archs as [|a archs IH]; simpl; intro ND; [constructor|].
+  inversion ND as [|? ? Nin ND']; subst. constructor; [|apply IH; exact ND'].
+  apply andb_true_iff. split.
+  - apply negb_true_iff. apply Nat.eqb_neq. exact Hn.
+  - apply negb_true_iff. destruct (existsb (String.eqb (bundle_key a)) (List.map bundle_key archs)) eqn:E; [|reflexivity].
+    exfalso. apply existsb_exists in E. destruct E as [x [Hx Ex]]. apply String.eqb_eq in Ex. subst x. contradiction.
+Qed.
+
+Lemma bundle_complete_refuted :
+  exists ntags archs, ntags <> 0 /\ incl archs all_archs /\ NoDup archs /\
+    ~ BundleComplete (bundle_included ntags archs) /\
+    bundle_included ntags archs = [false; true].
+Proof.
+  exists 1, ["arm/v6"; "arm/v7"]. split; [discriminate|]. split.
+  - intros x [<-|[<-|[]]]; vm_compute; tauto.
+  - split; [repeat constructor; simpl; intuition discriminate|].
+    split; [|reflexivity]. intro H. inversion H as [|? ? Hb _]. vm_compute in Hb. discriminate.
+Qed.
